@@ -102,6 +102,17 @@ CHECKS = {
         "a game runs is not judged. BFS depth 5 (quick) / 7 (thorough).",
    technique="explicit-state BFS of the implementation with a reference model (replay + fork snapshots)",
    ref="3/C20"),
+ "C09": dict(cat="model_checking",
+   text="Explicit-state BFS over color/on/off/remove_from_stack_by_key/clear_stack commands with keys, priorities and "
+        "fade times and time choices for single-channel, RGB and RGBW lights on the virtual back end, a software-faded "
+        "light on a coil (drivers platform) and batched lights on the real PlatformBatchLightSystem behind a harness "
+        "platform whose update-callback completion is an environment choice; reference stack from the statement; "
+        "logical colour and the last brightness commanded to every hardware channel compared at rest; interpolation "
+        "checked for fades started from rest.",
+   note="Trusted: virtual loop, reference stack in props/c09.py. Which of two equal-priority entries wins is not judged; "
+        "no colour-correction profile; BFS depth 3 (quick) / 4 (thorough), batched search depth 6 / 8.",
+   technique="explicit-state BFS of the implementation with a reference model (replay + fork snapshots)",
+   ref="3/C09"),
 }
 NOT_YET = "check not built yet in this revision (planned, see DESIGN.md section 7)"
 
